@@ -208,6 +208,7 @@ mod model {
     pub fn reset_ids() {
         LOCAL_ID.with(|c| c.set(0));
         FORCED.with(|c| c.set(0));
+        STALL.with(|c| c.set(false));
         WAKERS.with(|w| w.borrow_mut().clear());
     }
 
@@ -216,6 +217,25 @@ mod model {
         /// empty queue with `recv_timeout` time out at once, one per unit
         static FORCED: std::cell::Cell<u32> = const { std::cell::Cell::new(0) };
         static WAKERS: std::cell::RefCell<Vec<Box<dyn Fn()>>> = const { std::cell::RefCell::new(Vec::new()) };
+    }
+
+    thread_local! {
+        /// fault "stalled workers": while set, no receiver takes anything out of any queue
+        static STALL: std::cell::Cell<bool> = const { std::cell::Cell::new(false) };
+    }
+
+    /// Stall (or release) every receiver of this execution: a stalled receiver neither receives nor times out.
+    pub fn stall(on: bool) {
+        STALL.with(|c| c.set(on));
+        WAKERS.with(|w| {
+            for f in w.borrow().iter() {
+                f();
+            }
+        });
+    }
+
+    fn stalled() -> bool {
+        STALL.with(|c| c.get())
     }
 
     /// Simulated passage of idle time: `n` pending `recv_timeout` waits on empty queues time out now.
@@ -324,6 +344,9 @@ mod model {
 
         pub fn recv_timeout(&self, _timeout: Duration) -> Result<T, RecvTimeoutError> {
             let mut st = self.sh.st.lock().unwrap();
+            while stalled() {
+                st = self.sh.cv.wait(st).unwrap();
+            }
             st.waiting += 1;
             loop {
                 if let Some(m) = st.queue.pop_front() {
@@ -358,6 +381,9 @@ mod model {
 
         pub fn recv(&self) -> Result<T, RecvError> {
             let mut st = self.sh.st.lock().unwrap();
+            while stalled() {
+                st = self.sh.cv.wait(st).unwrap();
+            }
             st.waiting += 1;
             loop {
                 if let Some(m) = st.queue.pop_front() {
@@ -377,6 +403,9 @@ mod model {
 
         pub fn try_recv(&self) -> Result<T, TryRecvError> {
             let mut st = self.sh.st.lock().unwrap();
+            if stalled() && st.senders > 0 {
+                return Err(TryRecvError::Empty);
+            }
             if let Some(m) = st.queue.pop_front() {
                 ev(4, st.id, |e| e.recvs += 1);
                 drop(st);
